@@ -23,14 +23,50 @@ Definition handler_of (name : string) : option (list string -> prog reply) :=
   first_some [list_handler name; hash_handler name; set_handler default_pick name; zset_handler name;
               generic_handler name; string_handler name].
 
+(** Connection-level commands ([internal/modules/connection/commands.go]): they act on the
+    connection table, not on the keyspace.  Connection 0 is the embedded caller, whose database is
+    only changed by the API call [SelectDB]; a SELECT *command* issued through the embedded API writes
+    the record of the nil connection (kept here under key [-1]) and does not move the embedded caller. *)
+Definition conn_key (c : Z) : Z := if c =? 0 then -1 else c.
+
+Definition exec_conn_cmd (w : world) (c : Z) (name : string) (argv : list string) : option (world * reply) :=
+  if String.eqb name "select" then
+    Some (if negb (length argv =? 2)%nat then (w, RErr) else
+          match parse_int (arg argv 1) with
+          | None => (w, RErr)
+          | Some d => if d <? 0 then (w, RErr)
+                      else (w <| w_conns := <[conn_key c := d]> (w_conns w) |>, ROk)
+          end)
+  else if String.eqb name "swapdb" then
+    Some (if negb (length argv =? 3)%nat then (w, RErr) else
+          match parse_int (arg argv 1), parse_int (arg argv 2) with
+          | Some d1, Some d2 =>
+              if (d1 <? 0) || (d2 <? 0) then (w, RErr)
+              else (w <| w_conns := (fun d => if d =? d1 then d2 else if d =? d2 then d1 else d) <$> w_conns w |>, ROk)
+          | _, _ => (w, RErr)
+          end)
+  else if String.eqb name "ping" then
+    Some (match argv with
+          | [_] => (w, RSimple "PONG")
+          | [_; m] => (w, RBulk m)
+          | _ => (w, RErr)
+          end)
+  else if String.eqb name "echo" then
+    Some (match argv with [_; m] => (w, RBulk m) | _ => (w, RErr) end)
+  else None.
+
 Definition exec_cmd (w : world) (c : Z) (argv : list string) : world * reply :=
   match argv with
   | [] => (w, RErr)
   | cmd :: _ =>
-      match handler_of (lower cmd) with
-      | None => (w, RErr)
-      | Some h =>
-          let '(s', r) := run_seq (conn_db w c) (h argv) (w_st w) in
-          (w <| w_st := s' |>, r)
+      match exec_conn_cmd w c (lower cmd) argv with
+      | Some r => r
+      | None =>
+          match handler_of (lower cmd) with
+          | None => (w, RErr)
+          | Some h =>
+              let '(s', r) := run_seq (conn_db w c) (h argv) (w_st w) in
+              (w <| w_st := s' |>, r)
+          end
       end
   end.
